@@ -428,7 +428,7 @@ func z15Scenarios(thorough bool) []z15Scenario {
 		// keep-alive) while another request / ps touches the same runners
 		{Name: "generate-e|generate-a max2", Cap: 2, Extra: []string{"e"}, Env: map[string]string{"OLLAMA_MAX_LOADED_MODELS": "2"}, Loaded: []string{"a", "b"}, Reqs: []z15Req{{Kind: "generate", A: "e"}, {Kind: "generate", A: "a"}}},
 		{Name: "generate-e|unload-a max2 cpu", CPU: true, Cap: 2, Extra: []string{"e"}, Env: map[string]string{"OLLAMA_MAX_LOADED_MODELS": "2"}, Loaded: []string{"a", "b"}, Reqs: []z15Req{{Kind: "generate", A: "e"}, {Kind: "unload", A: "a"}}},
-		{Name: "generate-e|generate-a max2 cpu", CPU: true, Cap: 2, Extra: []string{"e"}, Env: map[string]string{"OLLAMA_MAX_LOADED_MODELS": "2"}, Loaded: []string{"a", "b"}, Reqs: []z15Req{{Kind: "generate", A: "e"}, {Kind: "generate", A: "a"}}},
+		{Name: "generate-e|generate-a max2 cpu", CPU: true, Cap: 1, Extra: []string{"e"}, Env: map[string]string{"OLLAMA_MAX_LOADED_MODELS": "2"}, Loaded: []string{"a", "b"}, Reqs: []z15Req{{Kind: "generate", A: "e"}, {Kind: "generate", A: "a"}}},
 		{Name: "generate-e|ps max2 cpu", CPU: true, Cap: 2, Extra: []string{"e"}, Env: map[string]string{"OLLAMA_MAX_LOADED_MODELS": "2"}, Loaded: []string{"a", "b"}, Reqs: []z15Req{{Kind: "generate", A: "e"}, {Kind: "ps"}}},
 		// a generation that outlasts every timeout of the server (virtual time), alone and next to an unload request
 		{Name: "generate0-long", Cap: 2, Reqs: []z15Req{{Kind: "generate0-long", A: "a"}}},
@@ -449,7 +449,7 @@ func z15Scenarios(thorough bool) []z15Scenario {
 		{Name: "pull|pull", Cap: 1, Reqs: []z15Req{{Kind: "pull"}, {Kind: "pull"}}},
 		{Name: "pull-gone-late", Cap: 2, Reqs: []z15Req{{Kind: "pull-gone-late"}}},
 		{Name: "push-gone-late", Cap: 2, Reqs: []z15Req{{Kind: "push-gone-late", A: "reg.test/lib/up:tag"}}},
-		{Name: "push-gone-late redirect", Cap: 2, Redirect: true, Reqs: []z15Req{{Kind: "push-gone-late", A: "reg.test/lib/up:tag"}}},
+		{Name: "push-gone-late redirect", Cap: 1, Redirect: true, Reqs: []z15Req{{Kind: "push-gone-late", A: "reg.test/lib/up:tag"}}},
 		{Name: "pull-gone", Cap: 2, Reqs: []z15Req{{Kind: "pull-gone"}}},
 		{Name: "push-gone", Cap: 2, Reqs: []z15Req{{Kind: "push-gone", A: "reg.test/lib/up:tag"}}},
 		{Name: "push-gone redirect", Cap: 1, Redirect: true, Reqs: []z15Req{{Kind: "push-gone", A: "reg.test/lib/up:tag"}}},
@@ -545,7 +545,7 @@ func z15Main(id string) {
 	bounds[mcrt.Order] = 1
 	bounds[mcrt.Cancel] = 1
 	total := 2
-	budget := 200 * gotime.Second
+	budget := 300 * gotime.Second
 	if id == "C01" || id == "C02" {
 		budget = 150 * gotime.Second
 	}
